@@ -39,7 +39,16 @@ def _server_run(params, residue):
             Bc.query(Bc.data_labels(Bc.up_seq, 0, 1, proto.deflate(long_frame)[:110]))
             k.run(k.now + 3000)
             # ... then a short / truncated / pointer-ending datagram arrives
-            kind = rng.randrange(6)
+            kind = rng.randrange(7)
+            if kind == 6:
+                # the lingering datagram is a genuine raw-mode login; what follows is too short to be one
+                A.raw_login()
+                k.run(k.now + 3000)
+                n = rng.choice([0, 1, 2, 3, 3, 3, 4, 4, 5, 10, 19])
+                d = (proto.RAW_MAGIC + bytes([proto.RAW_LOGIN | (A.userid & 15)]) + bytes(rng.getrandbits(8) for _ in range(16)))[:n]
+                k.transmit(("10.66.0.9", 4444), (scen.SERVER_IP, 53), d)
+                k.run(k.now + 3000)
+                continue
             if kind == 0:
                 d = hostile.dns_malformed(rng, dl)
             elif kind == 1:
